@@ -19,6 +19,8 @@ RULES = [
     Rule('C17.R3', 'MUS division and tempo give 140 Hz within 2.5 %', 1),
     Rule('C17.R4', 'XMI delta/duration/tempo scale with one constant; division = tempo*3/25000; per-song division', 4),
     Rule('C17.R5', 'XMI event list: a new event is inserted after the events already queued for its tick (stable order)', 1),
+    Rule('C17.R7', 'every move of the XMI source cursor over an IFF chunk body uses the chunk length rounded up to even (the pad byte of odd chunks)', 4),
+    Rule('C17.R8', 'every MUS event arm consumes the number of data bytes the DMX format defines; the 8-bit pitch wheel becomes the 14-bit value w * 64', 6),
     Rule('C17.R6', 'every load starts from the plain-MIDI format; variable-length encoders continue exactly while 7-bit groups remain', 3),
 ]
 EXPLANATION = ('Constant/table extraction from the AST of the converters and of BW_MidiSequencer::parseRMI, compared with the governing format tables encoded in the '
@@ -186,6 +188,8 @@ def analyse(facts, tier):
     obls.append(Obl('C17.R4', cl.name, 'tempo is taken once per sequence', cl.loc, 'discharged' if 'tempo' in ks else 'finding', why='first tempo event sets the division; later ones are skipped'))
     obls += r5_stable(facts)
     obls += r6_format_and_vlq(facts)
+    obls += r7_iff_padding(facts)
+    obls += r8_mus_event_bytes(facts)
     return obls
 
 
@@ -287,4 +291,180 @@ def r6_format_and_vlq(facts):
                            'the encoder does not continue exactly while value >> 7 is non-zero: delays on a 7-bit group boundary (128, 16384, ...) are written with the wrong number of bytes'))
         if not found:
             raise build.AnalysisBroken('C17.R6: the group loop of %s was not found' % name)
+    return out
+
+
+def r7_iff_padding(facts):
+    """IFF chunks are padded to an even length.  In the XMI extractor every skip / seek whose distance is built from a chunk length
+    (a local defined by xmi2mid_read4: the big-endian size field) must use `(len + 1) & ~1`; a move by the raw length lands on the
+    pad byte of an odd chunk and the next chunk header (the FORM of the next song) is read one byte early."""
+    out = []
+    n = 0
+    for fn in facts.all_fns():
+        if fn.relfile() != 'src/cvt_xmi2mid.hpp' or fn.tree is None:
+            continue
+        lens = set()
+        for b, j, st in fn.cfg.stmts():
+            if st['s'].get('k') == 'DeclStmt':
+                for v in st['s']['decls']:
+                    if v.get('init') is not None and any(short(callee_name(y)) == 'xmi2mid_read4' for y in walk(v['init']) if 'callee' in y):
+                        lens.add(v['id'])
+            for x in walk(st['s']):
+                ap = assign_parts(x)
+                if ap and strip(ap[0]).get('k') == 'DeclRefExpr' and any(short(callee_name(y)) == 'xmi2mid_read4' for y in walk(ap[1]) if 'callee' in y):
+                    lens.add(strip(ap[0])['id'])
+        if not lens:
+            continue
+        for b, j, st in fn.cfg.stmts():
+            for x in calls_in(st['s']):
+                if short(callee_name(x)) not in ('xmi2mid_skipsrc', 'xmi2mid_seeksrc') or len(x.get('a', [])) < 2:
+                    continue
+                arg = x['a'][1]
+                refs = [y for y in walk(arg) if y.get('k') == 'DeclRefExpr' and y.get('id') in lens]
+                if not refs:
+                    continue
+                n += 1
+                padded = False
+                for y in walk(arg):
+                    if y.get('k') == 'BinaryOperator' and y.get('op') == '&':
+                        for m_, o_ in ((y['l'], y['r']), (y['r'], y['l'])):
+                            c = const_of(m_)
+                            if c is not None and (c & 0xFFFFFFFF) == 0xFFFFFFFE:
+                                o = strip(o_)
+                                if o.get('k') == 'BinaryOperator' and o.get('op') == '+' and (const_of(o['r']) == 1 or const_of(o['l']) == 1) and \
+                                        any(z.get('id') in lens for z in walk(o)):
+                                    padded = True
+                out.append(Obl('C17.R7', fn.name, '%s(%s)' % (short(callee_name(x)), show(arg)[:50]), st['loc'], 'discharged' if padded else 'finding',
+                               why='distance uses (len + 1) & ~1' if padded else
+                               'the cursor is moved by the raw chunk length: after a chunk of odd size it stands on the pad byte, the next chunk header is misread and the following songs of the file are lost'))
+    if n < 4:
+        raise build.AnalysisBroken('C17.R7: only %d chunk-length moves found in the XMI converter' % n)
+    return out
+
+
+# DMX MUS event types -> (min, max) data bytes after the event descriptor
+MUS_EVENT_BYTES = {0: (1, 1),      # release note: note number
+                   1: (1, 2),      # play note: note number, volume when bit 7 of the note byte is set
+                   2: (1, 1),      # pitch wheel
+                   3: (1, 1),      # system event: controller number only
+                   4: (2, 2)}      # change controller: number, value
+
+
+def r8_mus_event_bytes(facts):
+    """(a) the MUS score is a byte stream without resynchronisation points: an arm of the event switch that consumes one byte too
+    many or too few puts every later event out of step.  Count the cursor post-increments on every path of each arm (structured
+    tree, min / max over if-branches) and compare with the format table.
+    (b) pitch wheel: with w the byte under the cursor, (bit2 << 7) | bit1 must equal w * 64 for all 256 values (constant folding
+    of the two right-hand sides)."""
+    out = []
+    fn = facts.fn('Convert_mus2midi')
+    sws = [x for x in walk(fn.tree) if isinstance(x, dict) and x.get('k') == 'SwitchStmt' and '>> 4' in show(x.get('cond'))]
+    if not sws:
+        raise build.AnalysisBroken('C17.R8: event-type switch of Convert_mus2midi not found')
+    # the cursor: the pointer that the arms post-increment
+    def incs(t):
+        """(min, max) number of cursor increments along the paths of statement t; None = path leaves by goto (not counted)"""
+        if t is None:
+            return (0, 0)
+        if isinstance(t, list):
+            lo = hi = 0
+            for y in t:
+                r = incs(y)
+                if r is None:
+                    return None
+                lo += r[0]; hi += r[1]
+            return (lo, hi)
+        k = t.get('k')
+        if k == 'GotoStmt' or k == 'ReturnStmt':
+            return None
+        if k == 'CompoundStmt':
+            return incs(t.get('body'))
+        if k == 'IfStmt':
+            c = incs_expr(t.get('cond'))
+            a, b = incs(t.get('then')), incs(t.get('else'))
+            arms = [r for r in (a, b) if r is not None]
+            if not arms:
+                return None
+            return (c + min(r[0] for r in arms), c + max(r[1] for r in arms))
+        if k in ('BreakStmt',):
+            return (0, 0)
+        n = incs_expr(t)
+        return (n, n)
+    def incs_expr(e):
+        return sum(1 for y in walk(e) if isinstance(y, dict) and is_incdec(y) and y.get('op') == '++' and (strip(y['e']).get('t') or {}).get('p') and short(strip(y['e']).get('n', '')) == 'cur')
+    arms = {}
+    cur = None
+    for it in (sws[0].get('body') or {}).get('body', []):
+        x = it
+        labs = []
+        while isinstance(x, dict) and x.get('k') in ('CaseStmt', 'DefaultStmt'):
+            if x.get('k') == 'CaseStmt':
+                labs.append(x.get('value'))
+            x = x.get('sub')
+        if labs:
+            cur = labs
+            for l in labs:
+                arms[l] = []
+        if cur is not None and isinstance(x, dict):
+            for l in cur:
+                arms[l].append(x)
+            if x.get('k') == 'BreakStmt':
+                cur = None
+    n = 0
+    for ty, (lo, hi) in sorted(MUS_EVENT_BYTES.items()):
+        if ty not in arms:
+            out.append(Obl('C17.R8', fn.name, 'MUS event type %d' % ty, fn.loc, 'finding', why='no arm for this event type'))
+            continue
+        n += 1
+        r = incs(arms[ty])
+        ok = r == (lo, hi)
+        out.append(Obl('C17.R8', fn.name, 'MUS event type %d consumes %s data byte(s)' % (ty, lo if lo == hi else '%d..%d' % (lo, hi)), '%s:%s' % (fn.file, arms[ty][0].get('ln')),
+                       'discharged' if ok else 'finding',
+                       why='cursor increments per path: %s' % (r,) if ok else
+                       'the arm advances the cursor by %s byte(s) but the DMX format stores %s: the following delay / event descriptor is swallowed (or re-read) and the rest of the score is parsed out of step' % (r, (lo, hi))))
+    if n < 5:
+        raise build.AnalysisBroken('C17.R8: MUS event arms not found')
+    # (b) pitch wheel assembly
+    def fold(e, w):
+        e = strip(e)
+        if e is None:
+            return None
+        c = const_of(e)
+        if c is not None:
+            return c
+        k = e.get('k')
+        if k == 'UnaryOperator' and e.get('op') == '*':
+            return w
+        if is_incdec(e):
+            return fold(e['e'], w)
+        if k == 'DeclRefExpr':
+            return None
+        if k == 'BinaryOperator':
+            a, b = fold(e['l'], w), fold(e['r'], w)
+            if a is None or b is None:
+                return None
+            op = e['op']
+            return {'&': a & b, '|': a | b, '<<': a << b, '>>': a >> b, '+': a + b, '-': a - b, '*': a * b}.get(op)
+        return None
+    b1 = b2 = None
+    for x in arms.get(2, []):
+        for y in walk(x):
+            ap = assign_parts(y)
+            if ap and ap[2] == '=':
+                nm = short(strip(ap[0]).get('n', ''))
+                if nm == 'bit1':
+                    b1 = ap[1]
+                elif nm == 'bit2':
+                    b2 = ap[1]
+    bad = None
+    if b1 is None or b2 is None:
+        bad = 'bit1 / bit2 assignments not found'
+    else:
+        for w in range(256):
+            v1, v2 = fold(b1, w), fold(b2, w)
+            if v1 is None or v2 is None or not (0 <= v1 < 128 and 0 <= v2 < 128) or ((v2 << 7) | v1) != w * 64:
+                bad = 'wheel byte %d gives LSB %s / MSB %s = %s, the format defines %d' % (w, v1, v2, None if v1 is None or v2 is None else (v2 << 7) | v1, w * 64)
+                break
+    out.append(Obl('C17.R8', fn.name, 'pitch wheel: (bit2 << 7) | bit1 == w * 64 for all 256 w', '%s:%s' % (fn.file, arms[2][0].get('ln')) if arms.get(2) else fn.loc,
+                   'discharged' if bad is None else 'finding', why='folded over w = 0..255' if bad is None else bad))
     return out
